@@ -109,6 +109,26 @@ fn vp_native_multipart_roundtrip_body() {
             prev = vec![body, look_alike];
         }
     }
+    // values made of line-break bytes: every string of up to 5 symbols over {a, CR, LF, '-'} as a text value and as file data comes
+    // back byte for byte (bare CR, bare LF, CRLF, LFCR, at the start, at the end, alone)
+    {
+        let alphabet = [b'a', b'\r', b'\n', b'-'];
+        for len in 0..=5usize { for code in 0..alphabet.len().pow(len as u32) {
+            let value: Vec<u8> = (0..len).map(|i| alphabet[(code / alphabet.len().pow(i as u32)) % alphabet.len()]).collect();
+            let text = String::from_utf8(value.clone()).unwrap();
+            let mut mp = MultipartBuilder::new().with_text("t", &text).with_file(MultipartFile::new("f", &value)).with_text("after", "x").build().unwrap();
+            let boundary = mp.content_type().unwrap().unwrap().strip_prefix("multipart/form-data; boundary=").unwrap().to_string();
+            let mut body = Vec::new(); mp.write(&mut body).unwrap();
+            cases += 1; crate::verif_native_watchdog::progress();
+            let got = decode(&body, &boundary).unwrap_or_else(|e| panic!("a form with the value {:?} does not decode ({})", text, e));
+            assert_eq!(got.len(), 3, "a form with the value {:?} decodes to {} parts", text, got.len());
+            for p in &got { match &p.name[..] {
+                "t" => assert!(p.data == value, "text value {:?} arrived as {:?}", text, String::from_utf8_lossy(&p.data)),
+                "f" => assert!(p.data == value, "file data {:?} arrived as {:?}", text, String::from_utf8_lossy(&p.data)),
+                _ => assert!(p.data == b"x", "the field after the value {:?} arrived as {:?}", text, String::from_utf8_lossy(&p.data)),
+            } }
+        } }
+    }
     // larger forms, names and filenames with blanks / non-ASCII / '=', MIME types with parameters, empty and 1-byte files
     let names = ["plain", "with space", "ünï-cødé", "a=b", "x", "docs\\2024\\summary", "semi;colon, comma", "{curly} [square] <angle> 'single' `tick` ~!@#$%^&*()|", "e\u{301}combining \u{1F600}"];
     let mimes = [None, Some("text/plain; charset=utf-8"), Some("application/x-custom+json"), Some("application/x-demo; token=AbCdEF"), Some("image/svg+xml"), Some("multipart/mixed; boundary=InnerBOUNDARY42")];
